@@ -1,5 +1,348 @@
 import PkVerif.Drv.Common
-/-! `pkmodel-c03`: stub (property not built yet). -/
+import PkVerif.Model.Ref
+import PkVerif.Model.Pack
+import PkVerif.Model.FilesStore
+import PkVerif.Gen.Facts
+import PkVerif.Gen.C03
+/-! `pkmodel-c03`: the diskpacked pack model (`dp.*`) and the files-store VFS model (`fs.*`) behind the
+line protocol of harness/props/c03.  Refs are plain ASCII tokens, bodies lower hex (`-` = empty). -/
 namespace Pk.Drv.C03
-def machine : Machine := { σ := Unit, init := (), step := fun s _ => (s, "bad-op") }
+open Pk Pk.Pack Pk.FilesStore
+
+def tbl : Pk.Ref.Tbl := ⟨Gen.refSizes, Gen.testRefTypes, Gen.maxOtherDigestLen⟩
+
+/-- `blob.Parse` accepts the text -/
+def okRef (b : Bytes) : Bool := (Pk.Ref.parse tbl b true).isSome
+/-- `blob.ParseBytes` accepts the text -/
+def okRefB (b : Bytes) : Bool := (Pk.Ref.parseBytes tbl b).isSome
+
+/-- the walker of the code as it is now (with the fit check of the repaired reindex.go) -/
+def checkFit : Bool := true
+
+def refArg (w : String) : Option Bytes :=
+  let b := ofString w
+  if okRef b then some b else none
+
+def natArg (w : String) : Option Nat := if w.isEmpty then none else w.toNat?
+
+def boolArg (w : String) : Option Bool :=
+  if w == "1" then some true else if w == "0" then some false else none
+
+def txt (b : Bytes) : String := toAsciiString b
+
+inductive DpOp where
+  | recv (ref body : Bytes)
+  | remove (ref : Bytes)
+
+inductive Step where
+  | eff (e : Eff) (shown : Option String)   -- executed effect and its log line (none: no call is made)
+  | failed (shown : String)                 -- the call that returned an error: logged, no effect
+
+structure St where
+  dp : Store
+  dpPrev : Option (Store × DpOp)
+  fs : VFS
+  fsPrev : Option (VFS × Ctx × List Step)
+  dpSlots : List (Nat × Store × Option (Store × DpOp)) := []
+  fsSlots : List (Nat × VFS × Option (VFS × Ctx × List Step)) := []
+
+def root : Bytes := ofString "/r"
+
+def fsInit : VFS := ⟨[root], [], 1⟩
+
+def init : St := { dp := Store.init 0, dpPrev := none, fs := fsInit, fsPrev := none }
+
+def slotArg (w : String) : Option Nat := match natArg w with
+  | some n => if n < 8 then some n else none
+  | none => none
+
+/-! ### diskpacked -/
+
+def splitOn1 (s : String) (c : Char) : List String := s.splitOn (String.singleton c)
+
+inductive Sub where
+  | r (ref body : Bytes)
+  | d (refs : List Bytes)
+
+def parseSub (w : String) : Option Sub :=
+  match splitOn1 w ':' with
+  | ["r", r, b] => (match refArg r, hexArg b with
+      | some r, some b => some (.r r b)
+      | _, _ => none)
+  | ["d", rs] =>
+    let parts := splitOn1 rs ','
+    let refs := parts.filterMap refArg
+    if refs.length = parts.length ∧ refs ≠ [] then some (.d refs) else none
+  | _ => none
+
+def runSub (st : Store) : Sub → Store × String
+  | .r ref body => (st.receive ref body, "ok")
+  | .d refs => (st.remove refs, "done")
+
+def showFetch : FetchRes → String
+  | .notExist => "ne"
+  | .err => "err"
+  | .ok size body => s!"ok:{size}:{toHexString body}"
+
+def commaJoin (l : List String) : String := if l.isEmpty then "-" else ",".intercalate l
+
+def dpRead (st : Store) (refs : List Bytes) : String :=
+  let f := refs.map (fun r => showFetch (st.fetch r))
+  let s := refs.map (fun r => match st.stat r with | none => "none" | some n => toString n)
+  let e := st.index.map (fun p => s!"{txt p.1}:{p.2.size}")
+  let t := streamPacks okRefB st.packs
+  let ts := t.1.map (fun p => s!"{txt p.1}:{toHexString p.2}")
+  s!"F {commaJoin f} S {commaJoin s} E {commaJoin e} T {commaJoin ts} end={if t.2 then "ok" else "err"}"
+
+def dpDump (st : Store) : String :=
+  let ps := st.packs.map toHexString
+  let rs := st.index.map (fun p => s!"{txt p.1}:{p.2.file},{p.2.offset},{p.2.size}")
+  s!"packs={commaJoin ps} rows={commaJoin rs}"
+
+/-- would `ReceiveBlob` append (not a duplicate whose extent is inside its pack)? -/
+def willAppend (st : Store) (ref : Bytes) : Bool :=
+  match st.index.get ref with
+  | some m => (match st.packs[m.file]? with
+     | some p => !(p.length ≥ m.offset + m.size)
+     | none => true)
+  | none => true
+
+def dpCrashAppend (st0 : Store) (ref body : Bytes) (keep : Nat) (np row : Bool) : Option Store :=
+  if !willAppend st0 ref then
+    (if keep = 0 ∧ !np ∧ !row then some st0 else none)
+  else
+    let total := (appendBytes ref body).length
+    let last := st0.packs.getLast?.getD []
+    let rollover := decide (last.length + total > st0.maxSize)
+    if keep > total then none
+    else if row && !(keep == total && (!rollover || np)) then none
+    else if np && !(rollover && keep == total) then none
+    else some (st0.crashAppend ref body keep np row)
+
+def dpStep (s : St) (ws : List String) : St × String :=
+  match ws with
+  | ["dp.init", m] =>
+    (match natArg m with
+     | some m => ({ s with dp := Store.init m, dpPrev := none }, "ok")
+     | none => (s, "bad-op"))
+  | "dp.load" :: ps =>
+    let packs := ps.filterMap hexArg
+    if packs.length = ps.length ∧ packs ≠ [] then
+      ({ s with dp := { s.dp with packs := packs, index := [] }, dpPrev := none }, "ok")
+    else (s, "bad-op")
+  | "dp.sess" :: subs =>
+    let ps := subs.filterMap parseSub
+    if ps.length ≠ subs.length ∨ ps = [] then (s, "bad-op") else
+    let (st', outs) := ps.foldl (fun (acc : Store × List String) sub =>
+      let r := runSub acc.1 sub; (r.1, acc.2 ++ [r.2])) (s.dp, [])
+    let prev := match ps with
+      | [.r ref body] => some (s.dp, DpOp.recv ref body)
+      | [.d [ref]] => some (s.dp, DpOp.remove ref)
+      | _ => none
+    ({ s with dp := st', dpPrev := prev }, " ".intercalate outs)
+  | ["dp.crash", "a", keep, np, row] =>
+    (match s.dpPrev, natArg keep, boolArg np, boolArg row with
+     | some (st0, .recv ref body), some keep, some np, some row =>
+       (match dpCrashAppend st0 ref body keep np row with
+        | some st' => ({ s with dp := st', dpPrev := none }, "ok")
+        | none => (s, "bad-op"))
+     | _, _, _, _ => (s, "bad-op"))
+  | ["dp.crash", "d", hdr, body, row] =>
+    (match s.dpPrev, boolArg hdr, boolArg body, boolArg row with
+     | some (st0, .remove ref), some hdr, some body, some row =>
+       ({ s with dp := st0.crashDelete ref hdr body row, dpPrev := none }, "ok")
+     | _, _, _, _ => (s, "bad-op"))
+  | ["dp.dump"] => (s, dpDump s.dp)
+  | ["dp.save", n] =>
+    (match slotArg n with
+     | some n => ({ s with dpSlots := (n, s.dp, s.dpPrev) :: s.dpSlots.filter (·.1 != n) }, "ok")
+     | none => (s, "bad-op"))
+  | ["dp.restore", n] =>
+    (match slotArg n with
+     | some n => (match s.dpSlots.find? (·.1 == n) with
+        | some (_, d, p) => ({ s with dp := d, dpPrev := p }, "ok")
+        | none => (s, "bad-op"))
+     | none => (s, "bad-op"))
+  | ["dp.trunc", n] =>
+    (match natArg n with
+     | some n =>
+       let last := s.dp.packs.getLast?.getD []
+       if n ≤ last.length then
+         ({ s with dp := { s.dp with packs := setLast s.dp.packs (last.take n) }, dpPrev := none }, "ok")
+       else (s, "bad-op")
+     | none => (s, "bad-op"))
+  | "dp.read" :: refs =>
+    let rs := refs.filterMap refArg
+    if rs.length ≠ refs.length then (s, "bad-op") else (s, dpRead s.dp rs)
+  | ["dp.reindex", mode] =>
+    if mode == "fresh" ∨ mode == "over" then
+      let r := s.dp.reindex okRef checkFit (mode == "fresh")
+      ({ s with dp := r.1, dpPrev := none }, if r.2 then "ok" else "err")
+    else (s, "bad-op")
+  | _ => (s, "bad-op")
+
+/-! ### files store -/
+
+def showEff (c : Ctx) (tmp : Option Bytes) (renamed : Bool) : Eff → Option String
+  | .mkdirAll => some s!"mkdirall:{txt c.dir}"
+  | .tempFile => some s!"tempfile:{txt c.dir}:{txt c.pfx}"
+  | .copy => if c.data.isEmpty then none else some s!"write:{c.data.length}"
+  | .sync => some "sync"
+  | .close => some "close"
+  | .lstat => some s!"lstat:{txt (if renamed then c.final else tmp.getD [])}"
+  | .rename => some s!"rename:{txt (tmp.getD [])}:{txt c.final}"
+  | .remove => tmp.map (fun t => s!"remove:{txt t}")
+  | _ => some "?"
+
+/-- the steps of `ReceiveBlob` along an extracted effect list: the non-deferred, unconditional calls in
+order; if `failAt = some k` the `k`-th of them returns an error and the deferred calls registered so
+far run instead of the rest -/
+def planSteps (c : Ctx) (v : VFS) (l : List EffAt) (failAt : Option Nat) : List Step :=
+  let rec go (l : List EffAt) (i : Nat) (s : RunSt) (renamed : Bool) (defs : List Eff) (acc : List Step) : List Step :=
+    match l with
+    | [] => acc
+    | x :: xs =>
+      if x.deferred then go xs i s renamed (defs ++ [x.e]) acc
+      else if x.cond then go xs i s renamed defs acc
+      else if failAt = some i ∧ (showEff c s.tmp renamed x.e).isSome then
+        -- this call fails: log it, then the deferred calls
+        let acc := acc ++ [Step.failed ((showEff c s.tmp renamed x.e).getD "" ++ "!")]
+        defs.foldl (fun a e => a ++ [Step.eff e (showEff c s.tmp renamed e)]) acc
+      else
+        let s' := step c s x.e
+        go xs (i + 1) s' (renamed || x.e == .rename) defs (acc ++ [Step.eff x.e (showEff c s.tmp renamed x.e)])
+  go l 0 ⟨v, none⟩ false [] []
+
+def shownOf : Step → Option String
+  | .eff _ s => s
+  | .failed s => some s
+
+def execSteps (c : Ctx) (s : RunSt) : List Step → RunSt
+  | [] => s
+  | .eff e _ :: t => execSteps c (step c s e) t
+  | .failed _ :: t => execSteps c s t
+
+/-- execute until `k` logged calls have been made -/
+def execPrefix (c : Ctx) (s : RunSt) (k : Nat) : List Step → Option RunSt
+  | [] => if k = 0 then some s else none
+  | st :: t =>
+    match shownOf st with
+    | none => execPrefix c (execSteps c s [st]) k t
+    | some _ => if k = 0 then some s else execPrefix c (execSteps c s [st]) (k - 1) t
+
+def logOf (steps : List Step) : String :=
+  commaJoin (steps.filterMap shownOf)
+
+def insertFile (f : File) : List File → List File
+  | [] => [f]
+  | g :: gs => if ltB g.path f.path then g :: insertFile f gs else f :: g :: gs
+
+def fsDump (v : VFS) : String :=
+  let ds := (v.dirs.foldl (fun acc d => insertSorted d acc) []).map txt
+  let fs := (v.files.foldl (fun acc f => insertFile f acc) []).map
+    (fun f => s!"{txt f.path}:{toHexString f.dur}:{toHexString f.cur}")
+  s!"dirs={commaJoin ds} files={commaJoin fs} ctr={v.counter}"
+
+def fsRead (v : VFS) (refs : List Bytes) : String :=
+  let f := refs.map (fun r => match fetch v root r with | none => "ne" | some b => s!"ok:{toHexString b}")
+  let s := refs.map (fun r => match fetch v root r with | none => "none" | some b => toString b.length)
+  let e := enumerate okRef v root
+  let es := e.1.map (fun p => s!"{txt p.1}:{p.2}")
+  s!"F {commaJoin f} S {commaJoin s} E {commaJoin es} end={if e.2 then "ok" else "err"}"
+
+def effKind (w : String) : Option Eff :=
+  match w with
+  | "mkdirall" => some .mkdirAll | "tempfile" => some .tempFile | "write" => some .copy
+  | "sync" => some .sync | "close" => some .close | "lstat" => some .lstat | "rename" => some .rename
+  | _ => none
+
+/-- index in the spine of the `occ`-th (1-based) call of kind `e` -/
+def spineIndex (l : List EffAt) (e : Eff) (occ : Nat) : Option Nat :=
+  let sp := spine l
+  let rec go (sp : List Eff) (i n : Nat) : Option Nat :=
+    match sp with
+    | [] => none
+    | x :: xs => if x == e then (if n + 1 == occ then some i else go xs (i + 1) (n + 1)) else go xs (i + 1) n
+  go sp 0 0
+
+def parentDir (p : Bytes) : Bytes :=
+  let r := p.reverse
+  match Pk.Pack.indexOf 47 r with
+  | none => []
+  | some i => (r.drop (i + 1)).reverse
+
+def fsStep (s : St) (ws : List String) : St × String :=
+  match ws with
+  | ["fs.init"] => ({ s with fs := fsInit, fsPrev := none }, "ok")
+  | ["fs.put", p, d] =>
+    (match hexArg d with
+     | some d =>
+       let path := ofString p
+       let v := (s.fs.mkdirAll (parentDir path)).remove path
+       ({ s with fs := { v with files := v.files ++ [⟨path, d, d⟩] }, fsPrev := none }, "ok")
+     | none => (s, "bad-op"))
+  | ["fs.mkdir", p] => ({ s with fs := s.fs.mkdirAll (ofString p), fsPrev := none }, "ok")
+  | ["fs.recv", r, d] =>
+    (match refArg r, hexArg d with
+     | some r, some d =>
+       let c := ctxOf root r d
+       let steps := planSteps c s.fs Gen.filesReceiveEffects none
+       let fin := execSteps c ⟨s.fs, none⟩ steps
+       ({ s with fs := fin.vfs, fsPrev := some (s.fs, c, steps) }, logOf steps ++ " -> ok")
+     | _, _ => (s, "bad-op"))
+  | ["fs.recvfail", r, d, kind, occ] =>
+    (match refArg r, hexArg d, effKind kind, natArg occ with
+     | some r, some d, some e, some occ =>
+       let c := ctxOf root r d
+       (match spineIndex Gen.filesReceiveEffects e occ with
+        | none => (s, "bad-op")
+        | some k =>
+          let willFail := !(e == .copy && d.isEmpty)
+          let steps := planSteps c s.fs Gen.filesReceiveEffects (if willFail then some k else none)
+          let fin := execSteps c ⟨s.fs, none⟩ steps
+          ({ s with fs := fin.vfs, fsPrev := some (s.fs, c, steps) },
+            logOf steps ++ (if willFail then " -> err" else " -> ok")))
+     | _, _, _, _ => (s, "bad-op"))
+  | ["fs.remove", r] =>
+    (match refArg r with
+     | some r =>
+       let p := blobPath root r
+       let c : Ctx := ⟨[], [], p, []⟩
+       -- RemoveBlobs (files.go:166): one `Remove(blobPath)`; modelled as `remove` of the "temp" name p
+       let steps := [Step.eff .remove (some s!"remove:{txt p}")]
+       ({ s with fs := s.fs.remove p, fsPrev := some (s.fs, c, steps) }, logOf steps ++ " -> ok")
+     | none => (s, "bad-op"))
+  | ["fs.crash", k, j] =>
+    (match s.fsPrev, natArg k, natArg j with
+     | some (v0, c, steps), some k, some j =>
+       let start : RunSt := match steps with
+         | [Step.eff .remove _] => ⟨v0, some c.final⟩
+         | _ => ⟨v0, none⟩
+       (match execPrefix c start k steps with
+        | some st => ({ s with fs := st.vfs.crash j, fsPrev := none }, "ok")
+        | none => (s, "bad-op"))
+     | _, _, _ => (s, "bad-op"))
+  | ["fs.dump"] => (s, fsDump s.fs)
+  | ["fs.save", n] =>
+    (match slotArg n with
+     | some n => ({ s with fsSlots := (n, s.fs, s.fsPrev) :: s.fsSlots.filter (·.1 != n) }, "ok")
+     | none => (s, "bad-op"))
+  | ["fs.restore", n] =>
+    (match slotArg n with
+     | some n => (match s.fsSlots.find? (·.1 == n) with
+        | some (_, v, p) => ({ s with fs := v, fsPrev := p }, "ok")
+        | none => (s, "bad-op"))
+     | none => (s, "bad-op"))
+  | "fs.read" :: refs =>
+    let rs := refs.filterMap refArg
+    if rs.length ≠ refs.length then (s, "bad-op") else (s, fsRead s.fs rs)
+  | _ => (s, "bad-op")
+
+def step (s : St) (ws : List String) : St × String :=
+  match ws with
+  | [] => (s, "bad-op")
+  | w :: _ => if w.startsWith "dp." then dpStep s ws else if w.startsWith "fs." then fsStep s ws else (s, "bad-op")
+
+def machine : Machine := { σ := St, init := init, step := step }
+
 end Pk.Drv.C03
